@@ -61,14 +61,15 @@ class Dict(AbstractSpace[OrderedDict[str, Any], None]):
         ).all()
 
     def __eq__(self, other: object) -> bool:
-        if not isinstance(other, OrderedDict):
+        if not isinstance(other, Dict):
+            return False
+
+        if len(self.spaces) != len(other.spaces):
             return False
 
         return all(
-            self_key == other_key and self_value == other_value
-            for (self_key, self_value), (other_key, other_value) in zip(
-                self.spaces.items(), other.items()
-            )
+            key in other.spaces and space == other.spaces[key]
+            for key, space in self.spaces.items()
         )
 
     def __repr__(self) -> str:
